@@ -183,6 +183,9 @@ pub fn atoms(payload: &[String]) -> BTreeSet<String> {
 
 struct CaCx<'a> {
     spec: &'a CaSpec,
+    /// The key the CA's certificate carries (a trust anchor certificate may
+    /// be issued for another key than the one its CA signs with).
+    cert_key: usize,
     eff: EffRes,
     /// Key indexes on the chain (this CA first).
     chain: Vec<usize>,
@@ -218,22 +221,22 @@ impl<'a> Eval<'a> {
     }
 
     /// Manifest-level checks common to both paths.
-    fn mft_ok(&self, owner: &CaSpec, issuer: &str, pv: &PointVersion) -> bool {
+    fn mft_ok(&self, key: usize, issuer: &str, pv: &PointVersion) -> bool {
         let Some(issuer) = self.world.ca(issuer) else { return false };
-        issuer.key == owner.key && fault_keeps_signature(&pv.mft_fault)
+        issuer.key == key && fault_keeps_signature(&pv.mft_fault)
             && pv.ee_not_before <= self.now && self.now <= pv.ee_not_after
             && !self.stale_rejected(pv.next_update)
     }
 
     /// The version offered by the collector, if its manifest and CRL are
     /// valid: (version, complete?).
-    fn fetched(&self, owner: &CaSpec) -> Option<(VersionT, bool)> {
+    fn fetched(&self, owner: &CaSpec, key: usize) -> Option<(VersionT, bool)> {
         let local = self.local?;
         let bytes = local.get(&owner.mft_uri())?;
         let Meaning::Mft { ca: issuer, version: pv, entries } = self.index.meaning(bytes) else {
             return None
         };
-        if !self.mft_ok(owner, &issuer, &pv) { return None }
+        if !self.mft_ok(key, &issuer, &pv) { return None }
         if pv.this_update > self.now { return None }
         let issuer_spec = self.world.ca(&issuer)?;
         let crl_uri = self.mft_crl_uri(issuer_spec, &pv);
@@ -244,7 +247,7 @@ impl<'a> Eval<'a> {
         let crl_bytes = local.get(&crl_uri)?;
         if !listed.iter().all(|(_, h)| *h == sha256(crl_bytes)) { return None }
         let crl = self.index.meaning(crl_bytes);
-        self.crl_ok(&crl, owner.key, pv.ee_serial)?;
+        self.crl_ok(&crl, key, pv.ee_serial)?;
         let mut complete = true;
         let mut objects = Vec::new();
         for (name, hash) in &entries {
@@ -260,9 +263,9 @@ impl<'a> Eval<'a> {
     }
 
     /// Is the stored version valid now for `owner`?
-    fn stored_ok(&self, owner: &CaSpec, v: &VersionT) -> bool {
-        self.mft_ok(owner, &v.issuer, &v.pv)
-            && self.crl_ok(&v.crl, owner.key, v.pv.ee_serial).is_some()
+    fn stored_ok(&self, key: usize, v: &VersionT) -> bool {
+        self.mft_ok(key, &v.issuer, &v.pv)
+            && self.crl_ok(&v.crl, key, v.pv.ee_serial).is_some()
     }
 
     fn number(pv: &PointVersion) -> u128 {
@@ -270,7 +273,7 @@ impl<'a> Eval<'a> {
     }
 
     /// The version `PubPoint::process` uses (exact), updating the store.
-    fn choose(&self, owner: &CaSpec, store: &mut TruthStore) -> Option<(VersionT, &'static str)> {
+    fn choose(&self, owner: &CaSpec, key: usize, store: &mut TruthStore) -> Option<(VersionT, &'static str)> {
         let uri = owner.mft_uri();
         if let Some(local) = self.local {
             if let Some(bytes) = local.get(&uri) {
@@ -278,7 +281,7 @@ impl<'a> Eval<'a> {
                     s.mft_sha == sha256(bytes) && s.repo == owner.repo
                 }).unwrap_or(false);
                 if !same {
-                    if let Some((v, complete)) = self.fetched(owner) {
+                    if let Some((v, complete)) = self.fetched(owner, key) {
                         let newer = match store.points.get(&uri) {
                             None => true,
                             Some(s) => {
@@ -295,15 +298,15 @@ impl<'a> Eval<'a> {
             }
         }
         let s = store.points.get(&uri)?;
-        if self.stored_ok(owner, s) { Some((s.clone(), "stored")) } else { None }
+        if self.stored_ok(key, s) { Some((s.clone(), "stored")) } else { None }
     }
 
     /// Every version this run could legitimately use (for "justified").
-    fn usable(&self, owner: &CaSpec, store: &TruthStore) -> Vec<VersionT> {
+    fn usable(&self, owner: &CaSpec, key: usize, store: &TruthStore) -> Vec<VersionT> {
         let mut res = Vec::new();
-        if let Some((v, true)) = self.fetched(owner) { res.push(v) }
+        if let Some((v, true)) = self.fetched(owner, key) { res.push(v) }
         if let Some(s) = store.points.get(&owner.mft_uri()) {
-            if self.stored_ok(owner, s) { res.push(s.clone()) }
+            if self.stored_ok(key, s) { res.push(s.clone()) }
         }
         res
     }
@@ -312,7 +315,7 @@ impl<'a> Eval<'a> {
     /// validated against the version `v`.
     fn cert_ok(&self, cx: &CaCx, v: &VersionT, issuer: &str, obj: &ObjSpec) -> bool {
         let Some(issuer) = self.world.ca(issuer) else { return false };
-        if issuer.key != cx.spec.key || !fault_keeps_signature(&obj.fault) { return false }
+        if issuer.key != cx.cert_key || !fault_keeps_signature(&obj.fault) { return false }
         if self.now < obj.not_before || self.now > obj.not_after { return false }
         let crl_uri = match &obj.fault {
             Fault::CrlUri(uri) => uri.clone(),
@@ -385,13 +388,13 @@ impl<'a> Eval<'a> {
         let mut path = cx.path.clone();
         path.push(child.name.clone());
         Some(CaCx {
-            spec: child, eff, chain, chain_len: cx.chain_len + 1, path,
+            spec: child, cert_key: child.key, eff, chain, chain_len: cx.chain_len + 1, path,
             deadline: version_deadline(cx.deadline, v).min(obj.not_after),
         })
     }
 
     fn walk_exact(&self, cx: CaCx<'a>, store: &mut TruthStore, out: &mut RunTruth) {
-        let Some((v, how)) = self.choose(cx.spec, store) else {
+        let Some((v, how)) = self.choose(cx.spec, cx.cert_key, store) else {
             out.points.push(PointT {
                 ca: cx.spec.name.clone(), path: cx.path.clone(), used: None,
                 items: Vec::new(), chain_deadline: cx.deadline,
@@ -415,7 +418,7 @@ impl<'a> Eval<'a> {
 
     fn walk_justified(&self, cx: CaCx<'a>, store: &TruthStore, out: &mut BTreeSet<String>, fuel: usize) {
         if fuel == 0 { return }
-        for v in self.usable(cx.spec, store) {
+        for v in self.usable(cx.spec, cx.cert_key, store) {
             for (name, meaning) in &v.objects {
                 for item in self.obj_items(&cx, &v, name, meaning) { out.insert(item.payload); }
                 if let Some(kid) = self.obj_child(&cx, &v, name, meaning) {
@@ -451,10 +454,10 @@ impl<'a> Eval<'a> {
     }
 
     fn root_cx(&self, content: &TaContent) -> Option<CaCx<'a>> {
-        let TaContent::Cert { ca, not_after, res, .. } = content else { return None };
+        let TaContent::Cert { ca, key, not_after, res, .. } = content else { return None };
         let spec = self.world.ca(ca)?;
         Some(CaCx {
-            spec, eff: EffRes::listed(res), chain: vec![spec.key], chain_len: 0,
+            spec, cert_key: *key, eff: EffRes::listed(res), chain: vec![*key], chain_len: 0,
             path: vec![spec.name.clone()], deadline: *not_after,
         })
     }
